@@ -9,8 +9,10 @@ if ! git apply --check "$PATCH" 2>/dev/null; then
 fi
 git apply "$PATCH" || git apply -3 "$PATCH"
 cd /verif
+cp -f evidence/$PROP.json /tmp/try_mutant.evidence.bak 2>/dev/null
 ./check "$PROP" --tier "$TIER" > /tmp/try_mutant.out 2>&1
 RC=$?
+cp -f /tmp/try_mutant.evidence.bak evidence/$PROP.json 2>/dev/null
 git -C /repo checkout -- . 
 git -C /repo reset -q
 echo "rc=$RC"; grep -c VIOLATION /tmp/try_mutant.out; grep -m3 -A1 VIOLATION /tmp/try_mutant.out | cut -c1-400; tail -1 /tmp/try_mutant.out | cut -c1-300
